@@ -33,6 +33,16 @@ CLAIMS = {
  "C18": ("other", "Decides 'every record is old or current' and 'absent untouched': the returned map is a clone of the input that only passes drain/filter/collect and is afterwards only written under keys built from present jobs/edges. The filter closure is analysed with its id lookups forced to hit/miss: both present -> exactly the edge test; an absent endpoint -> exactly the superseded-multi-output filter, which must be live (shape analysis of lookup vs stored keys) and fed by every present job.",
          "provenance + string-shape analysis; forced-outcome analysis of the filter closure", "4/C18"),
 }
+CLAIMS.update({
+ "C15": ("other", "Decides the mechanism: every PartialEq call on strings in every analysed run is classified by the provenance of its operands - two output records (recorded or current) are never compared textually; implementations of the comparison may use equality only as a shortcut to 'unaltered'; shielding is decided by analysing the dependency check with the comparison forced to each answer (and its cached flag re-read); the changed-output error needs the answer 'altered'. Order independence under such comparisons is not decided.",
+         "provenance classification of comparison call sites + forced-outcome abstract interpretation", "4/C15"),
+ "C16": ("other", "Local clauses decided by trace-partitioned abstract interpretation of the success event: the changed-output error is constructed at one site, reachable exactly from the running states of a validated Ephemeral (computed from the transition relation), only after is_history_altered(recorded output of the job, reported output) answered 'altered'; on that path the failure signal for the same job is queued, no success is signalled, nothing is recorded, the error is returned, and the failure reaches every direct downstream.",
+         "trace-partitioned abstract interpretation with ghost facts for strategy answers", "4/C16"),
+ "C03": ("other", "Necessary conditions that each change detector reaches the decision: the startup classification, analysed with a detector's outcome forced (input-name list differs / result missing / no own record), moves the job on every path to a state from which it is never re-validated; the validation loop, analysed one iteration at a time for each upstream state and both answers of the dependency check, cannot answer 'validated' with an invalidated dependency or an undecided upstream; jobs without cleanup are skipped only under the 'validated' verdict; records left by failed/interrupted attempts cannot vouch for the job (C08/C09 rules).",
+         "forced-outcome abstract interpretation + per-iteration loop summaries", "4/C03"),
+ "C06": ("other", "Necessary conditions over all paths: state writes keep the kind; explicit panics outside the public API's argument checks are unreachable in the abstraction; unwraps are guarded (neighbour relation, string-shape facts, stored topological order); APIError / changed-output error only where documented; self-addressed signals and event signals are accepted by the receiving handler in the state they are sent in; emissions whose repetition would be rejected cancel pending consider signals; new_history cannot fail for any state a job without output can end in. The InternalError arms that need inter-job invariants are listed, not judged (F7 is reported under C07).",
+         "composition of abstract-interpretation reachability, emitter/handler agreement and guard rules", "4/C06"),
+})
 PENDING = {}
 NA = {
  "C01": "equality of every materialised output with a from-scratch build over chains of edited evaluations relates runtime values and whole histories; no sound static argument in reach - its structural ingredients are decided under C03, C08, C11, C18",
